@@ -63,3 +63,16 @@ func init() {
 		Trusted: trusted,
 	})
 }
+
+func init() {
+	register(&PropDef{
+		ID: "C13", Patterns: []string{"./interp", "./stdlib"},
+		Extra: func(r *Run) {
+			r.restrictedTables()
+			r.fixStdlibShape()
+		},
+		Covered: []string{"default table lacks unsafe/syscall/os/exec", "exit entry points bound to the restricted replacements, which never return normally and call no exiting function", "no unwrapped *log.Logger is handed out (function results and variables)", "Getenv/LookupEnv/Setenv/Unsetenv/Clearenv implement the map model over interp.env", "shape of the stream/argument redirection closures of fixStdlib"},
+		Uncov:   []string{"Environ (map iteration multiset) and ExpandEnv (delegation to os.Expand)", "Options.Env parsing in New", "cmd/yaegi flag gating", "loggers reachable through struct fields (http.Server.ErrorLog) or interfaces"},
+		Trusted: []string{"T1 go toolchain, go/types, solvers", "T2 govc", "T5 log.Panic* panic without exiting; fmt.Fprint* write only to their writer"},
+	})
+}
